@@ -39,6 +39,7 @@ type harnessCfg struct {
 type harnessResult struct {
 	Cfg         harnessCfg
 	Paths       int
+	PathsAsserting int
 	Asserts     int
 	Discharged  int
 	Trivial     int
@@ -391,7 +392,7 @@ func runHarness(prog *ssa.Program, pkg *ssa.Package, c harnessCfg, thorough bool
 	fn := pkg.Func(c.Name)
 	start := time.Now()
 	e.RunHarness(fn)
-	r := &harnessResult{Cfg: c, Paths: e.Paths, Asserts: e.Asserts, Discharged: e.Discharged, Trivial: e.Trivial, Unknown: e.Unknown,
+	r := &harnessResult{Cfg: c, Paths: e.Paths, PathsAsserting: e.PathsAsserting, Asserts: e.Asserts, Discharged: e.Discharged, Trivial: e.Trivial, Unknown: e.Unknown,
 		Aborts: e.Aborts, Blocked: e.Blocked, Z3Q: sol.z3.Queries, CvcQ: sol.cvc.Queries, Z3T: sol.z3.Time, CvcT: sol.cvc.Time,
 		Fallback: sol.Fallback, Disagree: sol.Disagree, Terms: len(ts.terms), Wall: time.Since(start),
 		Funcs: sortedKeys(e.FuncsSeen), Models: sortedKeys(e.ModelsUsed), Assumps: sortedKeys(e.Assumptions), Notes: e.Notes,
